@@ -108,7 +108,7 @@ def seq(stmts):
 EXT = {}
 for n in """array zeros ones full zeros_like ones_like arange linspace meshgrid concatenate delete cumsum
     sum prod any all where nonzero argwhere argsort argmin argmax sort unique bincount round floor ceil
-    sqrt cos sin tan exp log abs arctan2 max min maximum minimum roll tile append copy einsum sign
+    sqrt cos sin tan exp log abs arctan2 max min maximum minimum roll tile append copy sign
     count_nonzero isfinite allclose average take_along_axis conj select stack mean dot cross outer
     linalg.norm linalg.inv linalg.eigvalsh linalg.eigh random.choice random.random random.uniform
     random.default_rng isclose amax amin mod remainder floor_divide power logical_and logical_or
@@ -116,7 +116,7 @@ for n in """array zeros ones full zeros_like ones_like arange linspace meshgrid 
     fill_diagonal_NOT""".split():
     if not n.endswith("_NOT"):
         EXT["numpy." + n] = "fresh"
-for n in "asarray squeeze reshape transpose ravel diag real imag atleast_1d atleast_2d swapaxes broadcast_to expand_dims".split():
+for n in "einsum asarray squeeze reshape transpose ravel diag real imag atleast_1d atleast_2d swapaxes broadcast_to expand_dims".split():
     EXT["numpy." + n] = "view"
 for n in "iinfo finfo errstate".split():
     EXT["numpy." + n] = "fresh"
@@ -143,7 +143,8 @@ EXT.update({
     "abs": "fresh", "sum": "fresh", "any": "const", "all": "const", "type": "const", "complex": "const",
     "enumerate": "view", "zip": "view", "min": "view", "max": "view", "iter": "view", "next": "view", "reversed": "view",
     "list": "box", "tuple": "box", "set": "box", "dict": "box", "sorted": "box", "slice": "const",
-    "ValueError": "fresh", "Exception": "fresh", "AssertionError": "fresh",
+    "ValueError": "fresh", "Exception": "fresh", "AssertionError": "fresh", "object": "const",
+    "NotImplementedError": "fresh", "TypeError": "fresh",
 })
 # external calls that write an argument: name -> index (or keyword) of the written argument
 EXT_WRITES = {"numpy.add.at": 0, "numpy.subtract.at": 0, "numpy.multiply.at": 0, "numpy.put": 0,
@@ -157,10 +158,11 @@ EXT_APPLY = {"numpy.apply_along_axis": 2, "numpy.vectorize": None}
 # type that has a method of that name among ndarray / list / dict / set / str / Axes / Solver / Queue)
 M_FRESH = set("""copy astype flatten sum mean min max argmax argmin argsort any all tolist conj round nonzero cumsum
     dot tobytes prod std var cumprod clip repeat trace uniform choice pareto random integers normal
-    query solve get_model get_core enum_models get_linewidths get_ylim get_xlim transform format join split
+    query solve get_model get_core enum_models get_linewidths get_ylim get_xlim format join split
     startswith endswith index count empty inverted""".split())
 M_CONST = set("format join startswith endswith index count empty".split())
 M_VIEW = set("reshape ravel squeeze transpose view items keys values swapaxes".split())
+M_VIEW_ARGS = {"transform"}       # Transform.transform(x): IdentityTransform returns x itself
 # in-place methods: write the receiver; "ext" = the receiver afterwards references the arguments
 M_WRITE = {"sort": False, "fill": False, "append": True, "extend": True, "remove": False, "pop": False, "put": True,
            "update": True, "add": True, "clear": False, "insert": True, "setdefault": True, "reverse": False,
@@ -199,7 +201,7 @@ class FuncInfo:
         self.kwarg = a.kwarg.arg if a.kwarg else None
         nd = len(a.defaults)
         self.defaults = {p: d for p, d in zip(self.params[len(self.params) - nd:], a.defaults)}
-        for p, d in zip(self.kwonly, a.kwonly_defaults):
+        for p, d in zip(self.kwonly, a.kw_defaults):
             if d is not None:
                 self.defaults[p] = d
         self.captures = []        # filled for nested functions (free variables of enclosing functions)
@@ -261,7 +263,7 @@ class ModuleInfo:
 
 BUILTINS = {"len", "int", "float", "str", "bool", "range", "isinstance", "hasattr", "format", "print", "round", "abs", "sum",
             "any", "all", "type", "complex", "enumerate", "zip", "min", "max", "iter", "next", "reversed", "list", "tuple",
-            "set", "dict", "sorted", "slice", "ValueError", "Exception", "AssertionError"}
+            "set", "dict", "sorted", "slice", "ValueError", "Exception", "AssertionError", "object", "NotImplementedError", "TypeError"}
 
 
 class World:
@@ -496,6 +498,8 @@ class FT:
         return self.names[name]
 
     def emit(self, s):
+        if s[0] == "write" and len(s) == 2:
+            s = ("write", s[1], getattr(self, "cur_line", 0))
         self.blocks[-1].append(s)
 
     def bind(self, x, d):
@@ -865,7 +869,11 @@ class FT2(FT):
                 d = self.default_value(g, p)
                 if d is None and not spread:
                     fail(node, f"missing argument {p} for {g.qual}", self.f.qual)
-                d = join(([d] if d is not None else []) + spread)
+                if p in SINK_PARAMS and spread:
+                    self.note(f"line {node.lineno}: output sink `{p}` of {g.short()} may be passed through **kwargs: treated as a sink, not as an argument array")
+                    d = FRESH
+                else:
+                    d = join(([d] if d is not None else []) + spread)
             elif spread and p not in kws and p in g.defaults:
                 pass
             args.append(self.tmp(d, "$arg"))
@@ -892,7 +900,11 @@ class FT2(FT):
         """call callback expression cb (function value) on the given argument values"""
         d = self.dotted(cb) if isinstance(cb, (ast.Name, ast.Attribute)) else None
         if d and d[0] in ("func", "nested"):
-            r = self.koala_call(d[1], elem_args, {}, [], [], node)
+            g = d[1]
+            need = len([p for p in g.params if p not in g.defaults])
+            if len(elem_args) < need:       # arity unknown to us (pool.map): every formal may receive any of the values
+                elem_args = [union(elem_args)] * need
+            r = self.koala_call(g, elem_args[:len(g.params)] if not g.vararg else elem_args, {}, [], [], node)
             return alias(r[0])
         if d and d[0] == "ext":
             k = EXT.get(d[1])
@@ -920,6 +932,19 @@ class FT2(FT):
         if d is None:
             pos, kws, star, dstar = self.call_args(e)
             return self.apply_callback(f, pos + list(kws.values()) + star + dstar, e)
+        if d[0] == "ext" and d[1] in EXT_APPLY and e.args and isinstance(e.args[0], (ast.Name, ast.Attribute)):
+            dd = self.dotted(e.args[0])
+            if dd and dd[0] in ("func", "nested", "ext"):
+                # the callback is applied right here: analysed as a direct call, not as an escaping value
+                e2 = ast.Call(func=e.func, args=[ast.Constant(value=0)] + e.args[1:], keywords=e.keywords)
+                ast.copy_location(e2, e)
+                pos, kws, star, dstar = self.call_args(e2)
+                if d[1] == "numpy.apply_along_axis":
+                    if len(e.args) < 3 or any(isinstance(a, ast.Starred) for a in e.args[:3]):
+                        fail(e, "apply_along_axis form", self.f.qual)
+                    self.apply_callback(e.args[0], [view(pos[2])] + pos[3:], e)
+                    return FRESH
+                return self.funcvalue(dd[1], e) if dd[0] != "ext" else CONST
         pos, kws, star, dstar = self.call_args(e)
         if d[0] in ("func", "nested"):
             return alias(self.koala_call(d[1], pos, kws, star, dstar, e)[0])
@@ -983,12 +1008,14 @@ class FT2(FT):
                 if root is not None and root != x:
                     self.bind(root, extend(root, allv))
             if name == "map" and e.args:
-                self.apply_callback(e.args[0], [view(a) for a in pos[1:]], e)
+                self.apply_callback(e.args[0], [view(alias(x))] + [view(a) for a in pos[1:]], e)
             if name in M_WRITE_RESULT_VIEW:
                 return view(alias(x))
             return box(allv) if M_WRITE[name] else FRESH
         if name in M_VIEW:
             return view(recv)
+        if name in M_VIEW_ARGS:
+            return union([recv] + allv)
         if name in M_CONST:
             return CONST
         if name in M_FRESH:
@@ -1001,3 +1028,396 @@ class FT2(FT):
         if isinstance(e, ast.Name) and self.is_local(e.id) and not (self.dotted(e) or (None,))[0] == "nested":
             return self.var(e.id)
         return None
+
+
+class FT3(FT2):
+    def method_call(self, e):
+        name = e.func.attr
+        cands = [ms[name] for m in self.w.mods.values() for ms in m.classes.values()
+                 if name in ms and not ms[name].is_property and ms[name].short() not in EXCLUDED]
+        if cands and name.startswith("__") or (cands and name not in M_WRITE and name not in M_FRESH and name not in M_VIEW):
+            recv = self.ex(e.func.value)
+            pos, kws, star, dstar = self.call_args(e)
+            outs = [alias(self.koala_call(g, [recv] + pos, kws, star, dstar, e)[0]) for g in cands]
+            return join(outs)
+        return FT2.method_call(self, e)
+
+    # ---- binding of targets
+    def bind_iter_target(self, t, it_node, it, comp=False):
+        """for t in it_node (value it): elementwise for zip / enumerate, else every name is a view"""
+        comps = None
+        if isinstance(it_node, ast.Call) and isinstance(it_node.func, ast.Name) and not self.is_local(it_node.func.id) \
+                and isinstance(t, (ast.Tuple, ast.List)) and not any(isinstance(a, ast.Starred) for a in it_node.args) and not it_node.keywords:
+            if it_node.func.id == "zip" and len(it_node.args) == len(t.elts):
+                comps = [view(self.ex(a)) for a in it_node.args]
+            elif it_node.func.id == "enumerate" and len(t.elts) == 2 and len(it_node.args) == 1:
+                comps = [CONST, view(self.ex(it_node.args[0]))]
+        if comps is not None:
+            for a, d in zip(t.elts, comps):
+                self.assign_target(a, d, comp, unpack=True)
+        else:
+            self.assign_target(t, view(it), comp, unpack=False)
+
+    def target_var(self, name, comp):
+        if comp:
+            sc = self.scopes[-1]
+            if name not in sc:
+                sc[name] = self.newvar(name + "$c")
+            return sc[name]
+        return self.var(name)
+
+    def assign_target(self, t, d, comp=False, unpack=False):
+        if isinstance(t, ast.Name):
+            self.bind(self.target_var(t.id, comp), d)
+        elif isinstance(t, (ast.Tuple, ast.List)):
+            for a in t.elts:
+                self.assign_target(a.value if isinstance(a, ast.Starred) else a, view(d), comp)
+        elif isinstance(t, ast.Subscript):
+            self.ex_index(t.slice)
+            self.store_through(t.value, d, t)
+        elif isinstance(t, ast.Attribute):
+            dd = self.dotted(t)
+            if dd is not None:
+                if dd[0] == "class" and len(dd[3]) == 1 and (dd[2], dd[3][0]) in self.in_once_guard:
+                    self.note(f"line {t.lineno}: `{ast.unparse(t)} = ...` under `if not hasattr({dd[2]}, '{dd[3][0]}')`: write-once class attribute, exempt like the cached attributes")
+                    return
+                fail(t, "store to a module/class attribute", self.f.qual)
+            if self.f.is_cached and isinstance(t.value, ast.Name) and t.value.id == self.f.params[0]:
+                self.note(f"line {t.lineno}: `{ast.unparse(t)} = ...` inside a cached_property: population of a lazily computed attribute (exempt, no Write emitted)")
+                return
+            self.store_through(t.value, d, t)
+        else:
+            fail(t, "assignment target " + type(t).__name__, self.f.qual)
+
+    def store_through(self, base, d, node):
+        """base[...] = d  /  base.attr = d : write base's buffer; base (and its root name) now references d"""
+        b = self.ex(base)
+        x = self.tmp(b, "$st")
+        self.emit(("write", x))
+        self.bind(x, extend(x, [d]))
+        root = self.root_name(base)
+        if root is not None and root != x:
+            self.bind(root, extend(root, [d]))
+
+    def is_scalar_name(self, name):
+        a = self.assigned.get(name, [])
+        return bool(a) and all(x[0] == "expr" and isinstance(x[1], ast.Constant) and isinstance(x[1].value, (int, float)) for x in a)
+
+    # ---- statements
+    def block(self, stmts):
+        self.blocks.append([])
+        for s in stmts:
+            self.stmt(s)
+        return seq(self.blocks.pop())
+
+    def stmt(self, s):
+        m = getattr(self, "st_" + type(s).__name__, None)
+        if m is None:
+            fail(s, "statement " + type(s).__name__, self.f.qual)
+        self.cur_line = s.lineno
+        m(s)
+
+    def st_Pass(self, s):
+        pass
+
+    st_Break = st_Continue = st_Pass
+
+    def st_FunctionDef(self, s):
+        pass        # lifted; its name is resolved statically
+
+    def st_Expr(self, s):
+        self.ex(s.value)
+
+    def st_Assert(self, s):
+        self.ex(s.test)
+        if s.msg is not None:
+            self.ex(s.msg)
+
+    def st_Raise(self, s):
+        if s.exc is not None:
+            self.ex(s.exc)
+
+    def st_Return(self, s):
+        if s.value is None:
+            return
+        if self.ret_len > 0:
+            ds = [self.ex(x) for x in s.value.elts]
+            tv = [self.tmp(d, "$rv") for d in ds]
+            for i, v in enumerate(tv):
+                self.bind(i + 1, join([alias(i + 1), alias(v)]))
+            self.bind(0, join([alias(0), box([alias(v) for v in tv])]))
+        else:
+            d = self.ex(s.value)
+            self.bind(0, join([alias(0), d]))
+
+    def st_Assign(self, s):
+        v = s.value
+        if len(s.targets) == 1 and isinstance(s.targets[0], (ast.Tuple, ast.List)):
+            t = s.targets[0]
+            names_only = all(isinstance(a, ast.Name) for a in t.elts)
+            # (a, b) = (x, y): simultaneous, elementwise
+            if isinstance(v, (ast.Tuple, ast.List)) and len(v.elts) == len(t.elts) and not any(isinstance(a, ast.Starred) for a in v.elts + t.elts):
+                tv = [self.tmp_copy(self.ex(x)) for x in v.elts]
+                for a, x in zip(t.elts, tv):
+                    self.assign_target(a, alias(x))
+                return
+            # a, b = koala_function(...) whose every return is a tuple display of that length
+            if isinstance(v, ast.Call) and names_only and isinstance(v.func, (ast.Name, ast.Attribute)):
+                d = self.dotted(v.func)
+                if d and d[0] in ("func", "nested") and getattr(d[1], "ret_len", None) is None:
+                    FT3(self.w, d[1])      # computes ret_len
+                if d and d[0] in ("func", "nested") and d[1].ret_len == len(t.elts):
+                    pos, kws, star, dstar = self.call_args(v)
+                    rets = self.koala_call(d[1], pos, kws, star, dstar, v, nrets=1 + len(t.elts))
+                    for a, r in zip(t.elts, rets[1:]):
+                        self.assign_target(a, alias(r))
+                    return
+        d = self.ex(v)
+        if len(s.targets) > 1:
+            d = alias(self.tmp_copy(d))
+        for t in s.targets:
+            self.assign_target(t, d)
+
+    def tmp_copy(self, d):
+        t = self.newvar("$v")
+        self.bind(t, d)
+        return t
+
+    def st_AnnAssign(self, s):
+        if s.value is not None:
+            self.assign_target(s.target, self.ex(s.value))
+
+    def st_AugAssign(self, s):
+        d = self.ex(s.value)
+        t = s.target
+        if isinstance(t, ast.Name):
+            if self.is_scalar_name(t.id) and self.is_local(t.id):
+                self.bind(self.var(t.id), FRESH)
+            else:
+                x = self.var(t.id) if self.is_local(t.id) else self.tmp(self.ex(t), "$g")
+                self.emit(("write", x))
+                self.bind(x, extend(x, [d]))
+        elif isinstance(t, ast.Subscript):
+            self.ex_index(t.slice)
+            self.store_through(t.value, d, t)
+        elif isinstance(t, ast.Attribute):
+            self.store_through(t.value, d, t)
+        else:
+            fail(t, "augmented assignment target", self.f.qual)
+
+    def st_If(self, s):
+        guard = None
+        # if not hasattr(C, "a"): C.a = ...   (write-once class attribute)
+        tst = s.test
+        if isinstance(tst, ast.UnaryOp) and isinstance(tst.op, ast.Not) and isinstance(tst.operand, ast.Call) \
+                and isinstance(tst.operand.func, ast.Name) and tst.operand.func.id == "hasattr" and len(tst.operand.args) == 2 \
+                and isinstance(tst.operand.args[0], ast.Name) and isinstance(tst.operand.args[1], ast.Constant):
+            dd = self.dotted(tst.operand.args[0])
+            if dd and dd[0] == "class" and not dd[3]:
+                guard = (dd[2], tst.operand.args[1].value)
+        self.ex(tst)
+        if guard:
+            self.in_once_guard.append(guard)
+        a = self.block(s.body)
+        if guard:
+            self.in_once_guard.pop()
+        b = self.block(s.orelse)
+        self.emit(("if", a, b))
+
+    def st_For(self, s):
+        it = self.ex(s.iter)
+        itv = self.tmp_copy(it)
+        self.blocks.append([])
+        self.bind_iter_target(s.target, s.iter, alias(itv))
+        for x in s.body:
+            self.stmt(x)
+        self.emit(("loop", seq_keep(self.blocks.pop())))
+        for x in s.orelse:
+            self.stmt(x)
+
+    def st_While(self, s):
+        self.blocks.append([])
+        self.ex(s.test)
+        for x in s.body:
+            self.stmt(x)
+        self.emit(("loop", seq_keep(self.blocks.pop())))
+        self.ex(s.test)
+        for x in s.orelse:
+            self.stmt(x)
+
+    def st_With(self, s):
+        for it in s.items:
+            d = self.ex(it.context_expr)
+            if it.optional_vars is not None:
+                self.assign_target(it.optional_vars, d)
+        for x in s.body:
+            self.stmt(x)
+
+    def st_Try(self, s):
+        # any prefix of the body may have run (E_SeqStop), then a handler, then orelse/finally
+        self.emit(("if", self.block(s.body), ("skip",)))
+        for h in s.handlers:
+            if h.type is not None:
+                self.ex(h.type)
+            if h.name:
+                self.bind(self.var(h.name), FRESH)
+            self.emit(("if", self.block(h.body), ("skip",)))
+        self.emit(("if", self.block(s.orelse), ("skip",)))
+        for x in s.finalbody:
+            self.stmt(x)
+
+    def translate(self):
+        f = self.f
+        if f.node.name == "__init__" and f.cls:
+            pass
+        self.blocks = [[]]
+        for s in f.node.body:
+            if isinstance(s, ast.Expr) and isinstance(s.value, ast.Constant):
+                continue
+            self.stmt(s)
+        if f.node.name == "__init__" and f.cls:
+            self.bind(0, join([alias(0), alias(self.var(f.params[0]))]))
+        return seq_keep(self.blocks.pop())
+
+
+# ----------------------------------------------------------------------------- emission
+def coq_list(xs):
+    return "[" + "; ".join(str(x) for x in xs) + "]"
+
+
+def coq_rhs(d):
+    return f"(Rhs {'true' if d.fr else 'false'} {coq_list(sorted(d.oo))} {coq_list(sorted(d.orr))} {coq_list(sorted(d.rr))})"
+
+
+def coq_stmt(s, idx, ind=2):
+    p = " " * ind
+    k = s[0]
+    if k == "skip":
+        return p + "Skip"
+    if k == "bind":
+        return p + f"(Bind {s[1]} {coq_rhs(s[2])})"
+    if k == "write":
+        return p + f"(Write {s[1]})"
+    if k == "call":
+        return p + f"(Call {coq_list(s[1])} {idx[s[2]]} {coq_list(s[3])})"
+    if k == "seq":
+        xs = s[1]
+        out = ""
+        for x in xs[:-1]:
+            out += p + "(Seq\n" + coq_stmt(x, idx, ind + 1) + "\n"
+        out += coq_stmt(xs[-1], idx, ind + 1) + ")" * (len(xs) - 1)
+        return out
+    if k == "if":
+        return p + "(If\n" + coq_stmt(s[1], idx, ind + 1) + "\n" + coq_stmt(s[2], idx, ind + 1) + ")"
+    if k == "loop":
+        return p + "(Loop\n" + coq_stmt(s[1], idx, ind + 1) + ")"
+    raise ValueError(k)
+
+
+def count_stmts(s):
+    k = s[0]
+    if k == "seq":
+        return sum(count_stmts(x) for x in s[1])
+    if k == "if":
+        return 1 + count_stmts(s[1]) + count_stmts(s[2])
+    if k == "loop":
+        return 1 + count_stmts(s[1])
+    return 1
+
+
+def has_write(s):
+    k = s[0]
+    if k == "write":
+        return True
+    if k == "seq":
+        return any(has_write(x) for x in s[1])
+    if k == "if":
+        return has_write(s[1]) or has_write(s[2])
+    if k == "loop":
+        return has_write(s[1])
+    return False
+
+
+def translate_all(repo=None):
+    repo = repo or os.environ.get("KOALA_REPO", "/repo")
+    w = World(repo)
+    compute_captures(w)
+    fts = {}
+    for f in w.funcs:
+        fts[f.qual] = FT3(w, f)        # also fixes ret_len of every function
+    bodies = {}
+    for f in w.funcs:
+        bodies[f.qual] = fts[f.qual].translate()
+    idx = {f.qual: i for i, f in enumerate(w.funcs)}
+    info = []
+    for f in w.funcs:
+        t = fts[f.qual]
+        public = (f.parent is None and ((f.cls is None and not f.node.name.startswith("_")) or f.cls is not None))
+        mask = [True] + [not (p in SINK_PARAMS or (f.cls and f.node.name == "__init__" and p == f.params[0]))
+                         for p in f.all_params()]
+        info.append({"index": idx[f.qual], "qual": f.qual, "module": f.module.name, "name": f.node.name, "cls": f.cls,
+                     "params": ["$glob"] + f.all_params(), "mask": mask, "public": public,
+                     "core": f.module.name in CORE, "nested": f.parent is not None,
+                     "escaping": f.qual in w.escaping, "nstmts": count_stmts(bodies[f.qual]),
+                     "has_write": has_write(bodies[f.qual]), "nvars": t.nvars, "lineno": f.node.lineno,
+                     "varnames": t.varnames, "ret_len": t.ret_len})
+    return w, bodies, idx, info
+
+
+def render(w, bodies, idx, info):
+    out = ["(* GENERATED by translate/effects_ir.py from the current koala source — do not edit. *)",
+           "From Coq Require Import List.", "Import ListNotations.", "From Koala Require Import Model.Effects.", ""]
+    for f, fi in zip(w.funcs, info):
+        out.append(f"(* {fi['index']}: {f.qual}({', '.join(fi['params'])})  [{f.module.path.split('/src/')[-1]}:{f.node.lineno}] *)")
+        out.append(f"Definition fn{fi['index']} : fundef := Fun {len(fi['params'])}\n{coq_stmt(bodies[f.qual], idx)}.")
+        out.append("")
+    out.append("Definition prog : program :=\n  " + coq_list(f"fn{i}" for i in range(len(info))) + ".\n")
+    def entries(sel):
+        return "[" + ";\n   ".join(f"({fi['index']}, {coq_list('true' if b else 'false' for b in fi['mask'])})" for fi in info if sel(fi)) + "]"
+    out.append("(* public functions of the modules the property quantifies over: every formal tainted except output sinks (ax) and the self under construction *)")
+    out.append("Definition public_functions : list (fname * list bool) :=\n  " + entries(lambda fi: fi["public"] and fi["core"]) + ".\n")
+    out.append("(* public functions of the remaining modules (generators, phase diagrams) *)")
+    out.append("Definition public_extra : list (fname * list bool) :=\n  " + entries(lambda fi: fi["public"] and not fi["core"]) + ".\n")
+    out.append("(* koala functions / closures used as first-class values (callbacks, returned closures): every formal and every captured variable tainted *)")
+    out.append("Definition escaping_functions : list (fname * list bool) :=\n  " + entries(lambda fi: fi["escaping"] and not (fi["public"])) + ".\n")
+    # the universal client: any number of calls, in any order, of any public function of the core modules
+    # on shared objects (client variables 0..3; T may alias any of them; results flow back into variable 0)
+    T, SINK, R = 4, 5, 6
+    calls = []
+    for fi in info:
+        if fi["public"] and fi["core"]:
+            calls.append(f"(Seq (Call [{R}] {fi['index']} {coq_list(T if b else SINK for b in fi['mask'])}) (Bind 0 (Join [0; {R}])))")
+    chain = "Skip"
+    for c in reversed(calls):
+        chain = f"(If {c}\n    {chain})"
+    out.append("(* universal client of the public API: Loop { T := any shared object; SINK := fresh; call any public function on T...; keep the result } *)")
+    out.append("Definition client_nvars : nat := 4.")
+    out.append(f"Definition koala_client : stmt :=\n  Loop (Seq Skip (Seq (Bind {T} (Union [0; 1; 2; 3])) (Seq (Bind {SINK} Fresh)\n    {chain}))).\n")
+    return "\n".join(out)
+
+
+def regenerate_all(gen_dir):
+    w, bodies, idx, info = translate_all()
+    text = render(w, bodies, idx, info)
+    written = []
+    os.makedirs(gen_dir, exist_ok=True)
+    for name, content in (("EffectsIR.v", text),
+                          ("effects_ir.json", json.dumps({"functions": info, "notes": w.notes, "excluded": EXCLUDED,
+                                                          "escaping": sorted(w.escaping)}, indent=1))):
+        p = os.path.join(gen_dir, name)
+        try:
+            same = open(p).read() == content
+        except FileNotFoundError:
+            same = False
+        if not same:
+            with open(p, "w") as fh:
+                fh.write(content)
+        written.append(p)
+    return written
+
+
+if __name__ == "__main__":
+    w, bodies, idx, info = translate_all(sys.argv[1] if len(sys.argv) > 1 else None)
+    print(len(info), "functions,", sum(fi["nstmts"] for fi in info), "IR statements")
+    for n in w.notes:
+        print("note:", n)
